@@ -208,6 +208,7 @@ MACROS_AGREE = ["work", "amend", "rebase", "rebase-onto", "rebase-opts", "rebase
                 "rebase-conflict-abort", "cherry-pick", "cherry-pick-n", "cherry-pick-conflict-continue", "reset",
                 "stash", "squash", "switch", "pull-ff", "pull-rebase", "pull-rebase-noop"]
 MACROS_FULL = MACROS_AGREE + ["rebase-i-reorder", "rebase-i-squash", "rebase-i-fixup", "rebase-i-drop", "rebase-conflict-abort-reset",
+                              "rebase-conflict-abort-commit",
                               "rebase-conflict-skip", "cherry-pick-range", "cherry-pick-range-conflict", "cherry-pick-conflict-abort",
                               "reset-human", "reset-hard-head", "reset-forward", "stash-apply", "stash-human", "checkout-force",
                               "checkout-merge", "checkout-path", "revert"]
@@ -240,6 +241,7 @@ class Scenario:
         self.remote = False
         self.stash_depth = 0
         self.pending = None                # facts of a rebase / cherry-pick that stopped
+        self.heal_pending = False          # a rebase was aborted and no checkpoint has run since
         self.prev_obs = {k: observe(t) for k, t in self.tw.items()}
 
     def close(self):
@@ -262,6 +264,15 @@ class Scenario:
             t.env.clock = CLOCK0 + self.n * 100
             rcs[k] = t.step(st)
         return rcs
+
+    def cp(self, st):
+        """a checkpoint step. The first one after `rebase --abort` is a compared operation of its own: in hooks mode
+        its entry point puts the hook entry points back that the aborted rebase left masked (Op.agentCheckpoint)"""
+        if self.heal_pending and not self.in_progress():
+            self.heal_pending = False
+            return self.op("checkpoint", ["checkpoint", st["k"]] + list(st.get("files", [])),
+                           lambda pre, rc, tr: {"k": "agentCheckpoint", "rebaseDir": False}, step=st)
+        return self.low(st)
 
     def g(self, *args):
         rc, out, _ = self.q.plain_git(*args)
@@ -294,7 +305,7 @@ class Scenario:
         pre-edit (human) and post-edit (AI) checkpoints; human edits are not checkpointed unless record_human"""
         ls = self.lines(p)
         if who != "human":
-            self.low({"k": "hcp", "files": [p]})
+            self.cp({"k": "hcp", "files": [p]})
         k = n or (1 + self.rng.below(2))
         new = [self.fresh(who) for _ in range(k)]
         L = len(ls)
@@ -302,25 +313,25 @@ class Scenario:
         ls[pos:pos] = new
         self.low({"k": "write", "path": p, "content": "".join(l + "\n" for l in ls)})
         if who != "human":
-            self.low({"k": "aicp", "session": who, "files": [p]})
+            self.cp({"k": "aicp", "session": who, "files": [p]})
         elif record_human:
-            self.low({"k": "hcp", "files": [p]})
+            self.cp({"k": "hcp", "files": [p]})
         else:
             self.unrec = True
 
     def replace_line(self, who, p, idx, text):
         ls = self.lines(p)
         if who != "human":
-            self.low({"k": "hcp", "files": [p]})
+            self.cp({"k": "hcp", "files": [p]})
         ls[idx] = text
         self.low({"k": "write", "path": p, "content": "".join(l + "\n" for l in ls)})
         if who != "human":
-            self.low({"k": "aicp", "session": who, "files": [p]})
+            self.cp({"k": "aicp", "session": who, "files": [p]})
         else:
             self.unrec = True
 
     # ---------------------------------------------------------------- a compared operation
-    def op(self, label, args, model, seq=None, env=None):
+    def op(self, label, args, model, seq=None, env=None, step=None):
         """run one git command of the alphabet on every twin, observe, and record the facts.
         `model(pre, rc, trace)` returns the Lean op (dict) or None when the facts cannot be established."""
         pre = {"head": self.head(), "dirty": self.dirty(), "unrec": self.unrec,
@@ -333,7 +344,7 @@ class Scenario:
                 v = self.g("rev-parse", "--verify", "-q", a + "^{commit}")
                 if v:
                     resolved[a] = v
-        st = {"k": "git", "args": list(args)}
+        st = dict(step) if step else {"k": "git", "args": list(args)}
         if seq:
             st["seq"] = seq
         if env:
@@ -445,6 +456,7 @@ class Scenario:
     def m_rebase_abort(self, pre, rc, trace):
         kind, start = self.pending
         self.pending = None
+        self.heal_pending = True
         return {"k": "rebaseAbort", "orig": self.ix(start["orig"]), "onto": self.ix(start["onto"]),
                 "upstreamArg": self.ix(start["upstreamArg"]), "interactive": start["interactive"], "chain": [], "newChain": [],
                 "pairs": [], "newHead": self.ix(start["orig"]), "inner": [], "wlAtOrig": start["wl"]}
@@ -581,7 +593,7 @@ class Scenario:
         self.commit(f"{br} tail")
         self.switch("main")
         self.replace_line("human", p, idx, self.fresh("up-conflict"))
-        self.low({"k": "hcp", "files": [p]}); self.unrec = False
+        self.cp({"k": "hcp", "files": [p]}); self.unrec = False
         self.commit(f"up conflict for {br}")
         return br, p
 
@@ -589,13 +601,13 @@ class Scenario:
         ls = [l for l in self.lines(p) if not l.startswith(CONFLICT_MARKS)]
         who = self.rng.pick(["human", "s2"])
         if who != "human":
-            self.low({"k": "hcp", "files": [p]})
+            self.cp({"k": "hcp", "files": [p]})
         ls.insert(len(ls) // 2, self.fresh(who))
         self.low({"k": "write", "path": p, "content": "".join(l + "\n" for l in ls)})
         if who != "human":
-            self.low({"k": "aicp", "session": who, "files": [p]})
+            self.cp({"k": "aicp", "session": who, "files": [p]})
         else:
-            self.low({"k": "hcp", "files": [p]})
+            self.cp({"k": "hcp", "files": [p]})
         self.low({"k": "git", "args": ["add", "-A"]})
 
     def ensure_remote(self):
@@ -695,6 +707,10 @@ class Scenario:
                     self.op("rebase-abort", ["rebase", "--abort"], self.m_rebase_abort)
                 if self.pending:
                     self.op("rebase-abort", ["rebase", "--abort"], self.m_rebase_abort)
+            if name == "rebase-conflict-abort-commit":
+                # a commit made by hand right after the abort: no checkpoint, checkout or rewrite has run in between
+                self.edit("human", FILES[1], "bottom")
+                self.commit("by hand after abort")
             if name == "rebase-conflict-abort-reset":
                 # the hook entry points are still renamed away: an operation other than commit / checkout goes unseen
                 self.op("reset-soft", ["reset", "-q", "--soft", "HEAD~1"], self.m_reset("soft"))
